@@ -40,6 +40,13 @@
 //     dns.Msg, caches, …) is abstract: parameters of such types are dropped and
 //     an expression that reads from them (`req.Question[0].Qtype`) becomes an
 //     extra parameter `e<k>_<name>` holding its value;
+//   - the spec file may declare such a type *symbolic* ("symbolic":
+//     {"net/netip.Addr": "String", "…/filter.Result": "(Option String)"}): its
+//     values are then carried as values of the given Lean type — `String`: an
+//     injective rendering of the value, the zero value (`T{}`, `var x T`) is
+//     "", `==` is equality of renderings; `(Option String)` for an interface:
+//     `none` is nil, `some t` a value whose dynamic type prints as `t` —
+//     and methods called on them are opaque calls;
 //   - []error literals, append on them and errors.Join are lists of optional
 //     texts and "first non-nil" (errors.Join is non-nil iff an element is);
 //   - any other call is *opaque*: its result becomes an extra parameter of the
@@ -105,6 +112,9 @@ type TrFunc struct {
 
 type trSpecFile struct {
 	Funcs []TrFunc `json:"funcs"`
+	// Symbolic maps qualified type names ("net/netip.Addr") that the subset
+	// cannot express to the Lean type that stands for their values.
+	Symbolic map[string]string `json:"symbolic,omitempty"`
 }
 
 type loadedPkg struct {
@@ -215,6 +225,7 @@ type translator struct {
 	funcs   map[string]*funcOut // key: pkgpath + "." + Recv.Name
 	byDecl  map[string]TrFunc
 	out     []*funcOut
+	symb    map[string]string
 }
 
 type funcOut struct {
@@ -237,6 +248,9 @@ func (t *translator) leanType(ty types.Type) string {
 	case *types.Named:
 		if u.Obj().Pkg() == nil && u.Obj().Name() == "error" {
 			return "(Option String)"
+		}
+		if u.Obj().Pkg() != nil && t.symb[u.Obj().Pkg().Path()+"."+u.Obj().Name()] != "" {
+			return t.symb[u.Obj().Pkg().Path()+"."+u.Obj().Name()]
 		}
 		if st, ok := u.Underlying().(*types.Struct); ok {
 			return t.structType(u, st)
@@ -604,6 +618,9 @@ func (c *fctx) expr(e ast.Expr) ex {
 			}
 			return c.bindN(xs, func(s []string) string { return "[" + strings.Join(s, ", ") + "]" })
 		}
+		if n, ok := c.typeOf(x).(*types.Named); ok && len(x.Elts) == 0 && n.Obj().Pkg() != nil && c.t.symb[n.Obj().Pkg().Path()+"."+n.Obj().Name()] != "" {
+			return ex{code: c.zero(n)}
+		}
 	}
 	if ix, ok := e.(*ast.IndexExpr); ok {
 		if _, isSl := c.typeOf(ix.X).Underlying().(*types.Slice); isSl && c.t.leanType(c.typeOf(ix.X)) != "" && isInt(c.typeOf(ix.Index)) {
@@ -724,7 +741,7 @@ func (c *fctx) binary(x *ast.BinaryExpr) ex {
 			var r string
 			if isBool(tx) {
 				r = "(" + s[0] + " == " + s[1] + ")"
-			} else if isInt(tx) || isString(tx) {
+			} else if isInt(tx) || isString(tx) || c.t.leanType(tx) == "String" {
 				r = "(decide (" + s[0] + " = " + s[1] + "))"
 			} else {
 				fail("equality on %s", tx)
@@ -1809,7 +1826,7 @@ func runTranslator(specDir, outDir, harness, modfile string) error {
 	sort.Strings(props)
 	for _, prop := range props {
 		sf := specs[prop]
-		t := &translator{l: l, structs: map[string]*structDef{}, funcs: map[string]*funcOut{}, byDecl: map[string]TrFunc{}}
+		t := &translator{l: l, structs: map[string]*structDef{}, funcs: map[string]*funcOut{}, byDecl: map[string]TrFunc{}, symb: sf.Symbolic}
 		for _, f := range sf.Funcs {
 			t.byDecl[repoModule+f.Pkg+"."+f.Func] = f
 		}
